@@ -15,7 +15,17 @@ pub fn format_parse_error(input: &str, err: nom::Err<NomError<&str>>) -> String 
     match err {
         nom::Err::Error(e) | nom::Err::Failure(e) => {
             let error_pos = e.input;
-            let offset = input.len() - error_pos.len();
+            // The error slice is usually, but not always, a suffix of `input`
+            // (some parsers report a prefix or an inner slice). Derive a byte
+            // offset that is always inside `input` and on a char boundary.
+            let mut offset = input.len().saturating_sub(error_pos.len());
+            while !input.is_char_boundary(offset) {
+                offset -= 1;
+            }
+            let span_end = input[offset..]
+                .chars()
+                .next()
+                .map_or(offset, |character| offset + character.len_utf8());
             
             // Calculate line and column numbers
             let mut line_no = 1;
@@ -94,7 +104,7 @@ pub fn format_parse_error(input: &str, err: nom::Err<NomError<&str>>) -> String 
                             .fold(false)
                             .annotation(
                                 AnnotationKind::Primary
-                                    .span(offset..offset.saturating_add(1).min(input.len()))
+                                    .span(offset..span_end)
                                     .label(&final_label)
                             )
                     )
